@@ -197,6 +197,25 @@ class Check(object):
                 with open(p, "w") as f:
                     json.dump(dict(property=self.prop, **_jsonable(v)), f, indent=1, sort_keys=True)
                 replay_paths.append(p)
+        # every reported counterexample must also replay in a fresh interpreter
+        # (plain Python values, no solver): ./vcheck replay <file>
+        if self.violations:
+            import subprocess
+            confirmed, paths2 = [], []
+            for v, p in list(zip(self.violations, replay_paths))[:6]:
+                try:
+                    rc = subprocess.run([sys.executable, "-m", "harness.replay", p], cwd=VERIF,
+                                        stdout=subprocess.DEVNULL, stderr=subprocess.DEVNULL,
+                                        timeout=300).returncode
+                except Exception:  # noqa
+                    rc = -1
+                if rc == 1:
+                    confirmed.append(v)
+                    paths2.append(p)
+                else:
+                    self.inconclusive.append("counterexample %s did not replay in a fresh interpreter (rc=%s): %s" % (
+                        p, rc, str(v.get("info"))[:200]))
+            self.violations, replay_paths = confirmed, paths2
         if not samples:
             samples = [dict(note="no path sample recorded")]
         if self.violations:
